@@ -1536,6 +1536,134 @@ theorem GInv.vfoldl {m : LBqm Rat} (g : GInv m) (calls : List (VT × VOp Rat)) :
 /-- every state reached by a history of calls through the model and its `.spin` / `.binary` views satisfies the invariant -/
 theorem GInv.vrun (vt : VT) (calls : List (VT × VOp Rat)) : GInv (LBqm.vrun vt calls) := (GInv.empty vt).vfoldl calls
 
+/-! ### there and back: `change_vartype` twice restores the dict of dicts exactly -/
+
+/-- the multipliers of `t2` undo those of `t1` -/
+structure Inverse (t1 t2 : PyTable Rat) : Prop where
+  quad : t2.quadMp * t1.quadMp = 1
+  lin : t2.linMp * t1.linMp = 1
+  linQuad : t2.linMp * t1.linQuadMp + t2.linQuadMp * t1.quadMp = 0
+  off1 : t1.linOffsetMp + t2.linOffsetMp * t1.linMp = 0
+  off2 : t1.quadOffsetMp + t2.linOffsetMp * t1.linQuadMp + t2.quadOffsetMp * t1.quadMp = 0
+
+theorem pyTables_inverse : Inverse pyToBinary pyToSpin ∧ Inverse pyToSpin pyToBinary := by
+  constructor <;> constructor <;> norm_num [pyToBinary, pyToSpin]
+
+theorem lbias_cvRowF (t : PyTable Rat) (u : Label) (nu : ODict Label Rat) (b : Rat) (hb : ODict.get? nu u = some b) :
+    lbias u (cvRowF t u nu) = t.linMp * b + t.linQuadMp * ((others u nu).map (·.2)).sum := by
+  unfold lbias cvRowF
+  rw [get?_map_vals nu (cvVal t u nu) u, hb]
+  simp [cvVal, lbias, hb]
+
+theorem others_map_vals (u : Label) (qm : Rat) (g : Label → Rat → Rat) (hg : ∀ k x, k ≠ u → g k x = qm * x) (l : ODict Label Rat) :
+    ((others u (l.map fun p => (p.1, g p.1 p.2))).map (·.2)).sum = qm * ((others u l).map (·.2)).sum := by
+  unfold others
+  induction l with
+  | nil => simp
+  | cons e rest ih =>
+    simp only [List.map_cons, List.filter_cons]
+    by_cases h : e.1 = u
+    · simp only [h, ne_eq, not_true_eq_false, decide_false, Bool.false_eq_true, if_false]
+      exact ih
+    · simp only [h, ne_eq, not_false_eq_true, decide_true, if_true, List.map_cons, List.sum_cons]
+      rw [ih, hg e.1 e.2 h]; ring
+
+theorem others_cvRowF (t : PyTable Rat) (u : Label) (nu : ODict Label Rat) :
+    ((others u (cvRowF t u nu)).map (·.2)).sum = t.quadMp * ((others u nu).map (·.2)).sum := by
+  unfold cvRowF
+  exact others_map_vals u t.quadMp (cvVal t u nu) (fun k x hk => by simp [cvVal, hk]) nu
+
+/-- one neighbourhood, converted and converted back -/
+theorem cvRowF_roundtrip (t1 t2 : PyTable Rat) (hi : Inverse t1 t2) (u : Label) (nu : ODict Label Rat) (hnd : (okeys nu).Nodup)
+    (b : Rat) (hb : ODict.get? nu u = some b) : cvRowF t2 u (cvRowF t1 u nu) = nu := by
+  have hl := lbias_cvRowF t1 u nu b hb
+  have hs := others_cvRowF t1 u nu
+  have hcomp : cvRowF t2 u (cvRowF t1 u nu)
+      = nu.map fun p => (p.1, cvVal t2 u (cvRowF t1 u nu) p.1 (cvVal t1 u nu p.1 p.2)) := by
+    rw [show cvRowF t2 u (cvRowF t1 u nu)
+        = (cvRowF t1 u nu).map (fun p => (p.1, cvVal t2 u (cvRowF t1 u nu) p.1 p.2)) from rfl]
+    conv_lhs => arg 2; unfold cvRowF
+    rw [List.map_map]
+    rfl
+  rw [hcomp]
+  conv_rhs => rw [← List.map_id nu]
+  apply List.map_congr_left
+  intro p hp
+  have hget := get?_of_mem nu hnd p.1 p.2 hp
+  by_cases h : p.1 = u
+  · have hpb : p.2 = b := by rw [h, hb] at hget; exact (Option.some.inj hget).symm
+    simp only [id, cvVal, h, if_true, hl, hs]
+    have e1 := hi.lin; have e2 := hi.linQuad
+    apply Prod.ext
+    · exact h.symm
+    · simp only []
+      rw [hpb]
+      linear_combination b * e1 + ((others u nu).map (·.2)).sum * e2
+  · simp only [id, cvVal, h, if_false]
+    apply Prod.ext
+    · rfl
+    · simp only []
+      linear_combination p.2 * hi.quad
+
+theorem cvOff_roundtrip (t1 t2 : PyTable Rat) (hi : Inverse t1 t2) (u : Label) (nu : ODict Label Rat)
+    (b : Rat) (hb : ODict.get? nu u = some b) : cvOff t1 (u, nu) + cvOff t2 (u, cvRowF t1 u nu) = 0 := by
+  unfold cvOff
+  simp only []
+  rw [lbias_cvRowF t1 u nu b hb, others_cvRowF]
+  have hl : lbias u nu = b := by unfold lbias; rw [hb]; rfl
+  rw [hl]
+  linear_combination b * hi.off1 + ((others u nu).map (·.2)).sum * hi.off2
+
+/-- **there and back on the dict back-end**: the pass with `t1` followed by the pass with the inverse table restores `_adj`
+    entry for entry, in the same insertion order, and the offset -/
+theorem cv_roundtrip_core (t1 t2 : PyTable Rat) (hi : Inverse t1 t2) (m : LBqm Rat) (i : LInv m) :
+    (m.adj.map (cvRow t1)).map (cvRow t2) = m.adj ∧
+    m.off + (m.adj.map (cvOff t1)).sum + ((m.adj.map (cvRow t1)).map (cvOff t2)).sum = m.off := by
+  constructor
+  · rw [List.map_map]
+    conv_rhs => rw [← List.map_id m.adj]
+    apply List.map_congr_left
+    intro r hr
+    obtain ⟨b, hb⟩ := i.self r.1 r.2 hr
+    simp only [Function.comp, id]
+    rw [cvRow_eq t1 r, cvRow_eq t2]
+    simp only []
+    rw [cvRowF_roundtrip t1 t2 hi r.1 r.2 (i.rowNodup r.1 r.2 hr) b hb]
+  · rw [List.map_map]
+    have : (m.adj.map (cvOff t1)).sum + (m.adj.map (cvOff t2 ∘ cvRow t1)).sum = 0 := by
+      rw [← sum_map_add']
+      apply sum_map_all_zero
+      intro r hr
+      obtain ⟨b, hb⟩ := i.self r.1 r.2 hr
+      simp only [Function.comp]
+      rw [cvRow_eq t1 r]
+      exact cvOff_roundtrip t1 t2 hi r.1 r.2 b hb
+    linarith
+
+/-- `change_vartype(other)` then `change_vartype(original)` gives back the same model: vartype, offset, every entry of
+    `_adj` in the same insertion order -/
+theorem changeVartype_roundtrip_dict (m : LBqm Rat) (i : LInv m) (other : VT) :
+    (m.changeVartypeWith pyToBinary pyToSpin other).changeVartypeWith pyToBinary pyToSpin m.vt = m := by
+  by_cases h : m.vt = other
+  · have e1 : m.changeVartypeWith pyToBinary pyToSpin other = m := by unfold changeVartypeWith; rw [if_pos h]
+    rw [e1]; unfold changeVartypeWith; rw [if_pos rfl]
+  · have hne : other ≠ m.vt := fun e => h e.symm
+    obtain ⟨vt, adj, off⟩ := m
+    simp only [] at h hne i ⊢
+    cases vt <;> cases other <;> first | exact absurd rfl h | skip
+    · -- spin → binary → spin
+      unfold changeVartypeWith
+      simp only [reduceCtorEq, if_false, go_spec]
+      obtain ⟨r1, r2⟩ := cv_roundtrip_core pyToBinary pyToSpin pyTables_inverse.1 ⟨.spin, adj, off⟩ i
+      simp only [] at r1 r2
+      rw [r1, r2]
+    · unfold changeVartypeWith
+      simp only [reduceCtorEq, if_false, go_spec]
+      obtain ⟨r1, r2⟩ := cv_roundtrip_core pyToSpin pyToBinary pyTables_inverse.2 ⟨.binary, adj, off⟩ i
+      simp only [] at r1 r2
+      rw [r1, r2]
+
+
 end LBqm
 
 end En
